@@ -14,8 +14,8 @@ Notation sys_step := (@Cas.sys_step key value lopt key_eqb key_ltb lmatch (list 
    is stored under its own CIDR (so an address belongs to one block), every ordinal has at most one owner, and the
    FIFO of free ordinals has no duplicates and contains only ordinals WITHOUT owner, so an owned address cannot be
    handed out again. *)
-Theorem c19_single_owner : forall cf fx clients evs e c b,
-  In e (st_ents (sy_store (sys_run (sys0 cf fx clients) evs))) -> e_key e = KBlock c -> e_val e = VBlock b ->
+Theorem c19_single_owner : forall cf fx fy clients evs e c b,
+  In e (st_ents (sy_store (sys_run (sys0 cf fx fy clients) evs))) -> e_key e = KBlock c -> e_val e = VBlock b ->
   bk_cidr b = c /\ NoDup (bk_unalloc b) /\
   (forall o, In o (bk_unalloc b) -> owner_of b o = None) /\
   (forall o x y, owner_of b o = Some x -> owner_of b o = Some y -> x = y).
@@ -25,9 +25,9 @@ Print Assumptions c19_single_owner.
 (* ... and over time: every step of every execution is at most one create / update / delete, where an update
    transforms the CURRENT value of its key (Cas.effect), and for a block the new value keeps every owned address
    with the same owner or frees it: ownership never passes from one live owner to another. *)
-Theorem c19_step_is_one_cas_transformation : forall cf fx clients evs ev,
+Theorem c19_step_is_one_cas_transformation : forall cf fx fy clients evs ev,
   Cas.effect key_eqb key_ltb create_ok update_ok delete_ok
-    (sy_store (sys_run (sys0 cf fx clients) evs)) (sy_store (sys_step (sys_run (sys0 cf fx clients) evs) ev)).
+    (sy_store (sys_run (sys0 cf fx fy clients) evs)) (sy_store (sys_step (sys_run (sys0 cf fx fy clients) evs) ev)).
 Proof. exact reachable_step_effect. Qed.
 Print Assumptions c19_step_is_one_cas_transformation.
 
@@ -39,9 +39,9 @@ Print Assumptions c19_no_steal.
 
 (* Every address returned by a completed assign is recorded for that handle in a version of its block that was
    really written (H' is a history of the successful writes, consistent with the final datastore). *)
-Theorem c19_returned_is_recorded : forall cf fx clients evs i l,
-  nth_error (sy_clients (sys_run (sys0 cf fx clients) evs)) i = Some (CRun (Ret l)) ->
-  exists H', Cas.store_hist (sy_store (sys_run (sys0 cf fx clients) evs)) H' /\ Cas.hist_ok VI H' /\
+Theorem c19_returned_is_recorded : forall cf fx fy clients evs i l,
+  nth_error (sy_clients (sys_run (sys0 cf fx fy clients) evs)) i = Some (CRun (Ret l)) ->
+  exists H', Cas.store_hist (sy_store (sys_run (sys0 cf fx fy clients) evs)) H' /\ Cas.hist_ok VI H' /\
     Forall (fun p => op_post cf (fst p) H' (snd p)) l.
 Proof. exact completed_results_recorded. Qed.
 Print Assumptions c19_returned_is_recorded.
@@ -87,8 +87,8 @@ Print Assumptions c19_handle_agrees_refuted_stale_handle_copy.
 
 (* Each address belongs to at most one block: two entries of a reachable datastore holding blocks with the same
    CIDR are the same entry (keys are unique and a block is stored under its own CIDR). *)
-Theorem c19_one_block_per_address : forall cf fx clients evs e1 e2 c b1 b2,
-  let s := sy_store (sys_run (sys0 cf fx clients) evs) in
+Theorem c19_one_block_per_address : forall cf fx fy clients evs e1 e2 c b1 b2,
+  let s := sy_store (sys_run (sys0 cf fx fy clients) evs) in
   In e1 (st_ents s) -> In e2 (st_ents s) ->
   e_key e1 = KBlock c -> e_val e1 = VBlock b1 -> e_key e2 = KBlock (bk_cidr b2) -> e_val e2 = VBlock b2 ->
   bk_cidr b1 = bk_cidr b2 -> e1 = e2.
